@@ -3,6 +3,9 @@ from .. import core
 from .. import truth as TR
 from .. import world as W
 from . import _ws
+from .. import xpy
+from .. import common as C
+import re
 
 ID = 'C13'
 TIERS = {'quick': {'seeds': 15000, 'seconds': 45, 'determinism': 48},
@@ -13,6 +16,7 @@ RULE = ('seeded sequential runs (15% with -j N: the children\'s output is relaye
         'sys.stdout/sys.stderr; over the merged stdout+stderr log: tokens of non-failing tests '
         'absent, tokens of failing tests present and only inside that test\'s own region. '
         'distinct = digest of hook-site sequence + faults; non-trivial = a token was written')
+RULE += (' Cross-version tier (directed specs): plain --buffer histories also run as real processes under CPython 3.9/3.10/3.11/3.13; stream identity at the per-test hooks and presence/absence of every token are judged there (attribution regions only in the simulated run).')
 RULE += (' One seed in six: part of the output is written by a thread that existed before the test started (a worker thread doing printing jobs).')
 RULE += (' ' + 'Later additions: tests that replace, swap, wrap or close the std streams; tests that drive a nested in-process run of the runner (inner run must hand back the streams it found; the outer capture stays intact).')
 BIAS = dict(n_test_faults=[0, 1, 2, 3, 4], n_layer_faults=[0], p_buffer=0.7, p_j=0.15, p_xml=0.15,
@@ -120,6 +124,84 @@ def gen(seed):
     return spec
 
 
+STREAM_ACTIONS = ('close_stdout', 'replace_stdout', 'swap_stdout', 'wrap_stdout', 'stash_stdout',
+                  'reinstall_stdout', 'nested_run')
+HEAD_RE = re.compile(r'^(?:Failure|Error) in test (\w+) \(([\w.]+?)\)', re.M)
+
+
+def directed(tier, base_seed):
+    """Cross-version specs (vsim/xpy.py): plain --buffer histories - every outcome kind, tokens
+    on every stream, no test that manipulates the streams itself - as real processes under the
+    other supported CPython versions."""
+    out = []
+    n = 16 if tier == 'quick' else 300
+    k = 0
+    while len(out) < n and k < n * 6:
+        spec = gen(8800000 + base_seed * 1019 + k)
+        k += 1
+        if any(e['a'] in STREAM_ACTIONS for e in spec['plan']) or spec['opt'].get('j') or \
+                spec['opt'].get('xml') or spec['opt'].get('pm'):
+            continue
+        if any(t.get('idx') for m_ in spec['world']['modules'] for c in m_['classes']
+               for t in c['tests']):
+            continue
+        spec['opt']['buffer'] = True
+        spec['opt'].pop('color', None)
+        spec['xpy'] = True
+        out.append(spec)
+    return out
+
+
+def xpy_check(spec, m, real, ver):
+    """The schedule- and version-independent part of the statement on a real run: between tests
+    the std streams are the originals; tokens of tests without a failure/error report of their
+    own appear nowhere, tokens of reported tests appear.  (Which tests are reported is read from
+    the run itself: unittest's outcome rules differ between versions, C12 owns the counts.)"""
+    viols = []
+    text = real.text + real.stderr
+    reported = set()
+    for meth, dotted in HEAD_RE.findall(text):
+        if dotted.endswith('.' + meth):
+            dotted = dotted[:-len(meth) - 1]       # (3.11+ names the method twice)
+        reported.add((meth, dotted))
+    for ev in real.trace:
+        if ev[1] in ('layer.testSetUp', 'layer.testTearDown') and ev[4] != 3:
+            viols.append(C.viol('C13/stream-replaced/%s/buffer/py%s' % (ev[1], ver),
+                                'under CPython %s (real process) sys.stdout/sys.stderr are not '
+                                'the original objects inside %s(%s)' % (ver, ev[1], ev[2])))
+            break
+    plan = spec['plan']
+    for pid, evs in sorted(C.by_pid(real.trace).items()):
+        occs, _ = C.occurrences(evs)
+        times = {}
+        for oc in occs:
+            times[oc['tid']] = times.get(oc['tid'], 0) + 1
+        for oc in occs:
+            if oc['open'] or times[oc['tid']] != 1:
+                # (the reports name tests, not occurrences: a test that ran more than once -
+                # --repeat, contained twice - is judged in the simulated run only)
+                continue
+            tid = oc['tid']                      # module.Class.method
+            dotted, meth = tid.rsplit('.', 1)
+            last = None
+            for ev in oc['events']:
+                if ev[1] == 'fault' and ev[2].startswith('write:') and last is not None:
+                    tok = plan[ev[3]]['text'].replace('%o', str(last[3])).strip()
+                    n = text.count(tok)
+                    if (meth, dotted) in reported and n == 0:
+                        viols.append(C.viol('C13/output-of-failing-test-lost/py' + ver,
+                                            'under CPython %s token %s of reported test %s is '
+                                            'missing from the output' % (ver, tok, tid)))
+                    elif (meth, dotted) not in reported and n:
+                        viols.append(C.viol('C13/output-of-non-failing-test-shown/py' + ver,
+                                            'under CPython %s token %s of %s (no failure or '
+                                            'error reported for it) appears in the output'
+                                            % (ver, tok, tid)))
+                elif ev[1] != 'fault':
+                    last = ev
+    return viols[:3]
+
+
 def run(spec, ctx):
     src = W.materialise(spec['world'], ctx.scratch)
     m = W.Model(spec['world'])
@@ -127,4 +209,14 @@ def run(spec, ctx):
     T = TR.Truth(m, res.trace)
     viols = _ws.oracle_buffer(m, spec, res, T)
     nw = sum(1 for ev in res.trace if ev[1] == 'fault' and ev[2].startswith('write:'))
-    return _ws.std_out(spec, ctx, [res], viols, {'token_writes': nw}, nontrivial=nw > 0)
+    xprobes = {}
+    if spec.get('xpy') and not res.raised:
+        for ver, py in xpy.interpreters():
+            real = xpy.execute(spec, W.argv(spec['opt'], src), ctx.scratch, py)
+            if real is None or real.raised:
+                xprobes['xpy_unavailable'] = xprobes.get('xpy_unavailable', 0) + 1
+                continue
+            xprobes['xpy_runs_py' + ver] = 1
+            viols += xpy_check(spec, m, real, ver)
+    return _ws.std_out(spec, ctx, [res], viols, dict(xprobes, token_writes=nw),
+                       nontrivial=nw > 0)
